@@ -10,6 +10,9 @@ open Primitiv.Registry Primitiv.Drv
 structure State where
   reg : Reg := {}
   opts : List Opt := []
+  /-- per optimizer: does the harness object count its configure_parameter calls
+  (`sgd`/`mom`: yes; `rsgd`/`rmom`, the library's own classes: no) -/
+  counted : List Bool := []
 deriving Inhabited
 
 /-- decimal digits only (what `vh::to_u64` accepts) -/
@@ -72,7 +75,7 @@ def exec (s : State) (ws : List String) : Option (State × String) :=
     else
       let r := (List.range nm).foldl (fun r _ => r.newModel) Reg.empty
       let r := (List.range np).foldl (fun r _ => r.newParam true) r
-      pure ({ reg := r, opts := [] }, "ok")
+      pure ({ reg := r, opts := [], counted := [] }, "ok")
   | ["model", a] => do
     let m ← parseNat a
     if m ≠ s.reg.size then none else pure ({ s with reg := s.reg.newModel }, "ok")
@@ -115,8 +118,10 @@ def exec (s : State) (ws : List String) : Option (State × String) :=
   | ["opt", a, k] => do
     let o ← parseNat a
     if o ≠ s.opts.length then none
-    else if k = "sgd" then pure ({ s with opts := s.opts ++ [{ needsStats := false }] }, "ok")
-    else if k = "mom" then pure ({ s with opts := s.opts ++ [{ needsStats := true }] }, "ok")
+    else if k = "sgd" || k = "rsgd" then
+      pure ({ s with opts := s.opts ++ [{ needsStats := false }], counted := s.counted ++ [k == "sgd"] }, "ok")
+    else if k = "mom" || k = "rmom" then
+      pure ({ s with opts := s.opts ++ [{ needsStats := true }], counted := s.counted ++ [k == "mom"] }, "ok")
     else none
   | ["optaddp", a, b] => do
     let o ← parseIdx a s.opts.length
@@ -134,8 +139,12 @@ def exec (s : State) (ws : List String) : Option (State × String) :=
     | .crash => pure (s, "crash")
   | ["optparams", a] => do
     let o ← parseIdx a s.opts.length
-    let ids := sortNats (s.opts.getD o default).params
-    pure (s, if ids.isEmpty then "ok -" else "ok " ++ csv ids)
+    let op := s.opts.getD o default
+    let ids := sortNats op.params
+    if ids.isEmpty then pure (s, "ok -")
+    else if s.counted.getD o false then
+      pure (s, "ok " ++ ",".intercalate (ids.map fun p => s!"{p}:{op.configCount p}"))
+    else pure (s, "ok " ++ csv ids)
   | _ => none
 
 def step (s : State) (line : String) : State × String :=
